@@ -131,11 +131,12 @@ class QTensorLinear(torch.autograd.Function):
             input_gO = torch.matmul(gO, other)
         if ctx.needs_input_grad[1]:
             # grad(B@A.t()) = gO.t() => grad(B) = gO.t()@(A.t().t()) = gO.t()@A
-            other_gO = torch.matmul(gO.view(-1, out_features).t(), input.view(-1, in_features))
+            other_gO = torch.matmul(gO.reshape(-1, out_features).t(), input.reshape(-1, in_features))
         if ctx.needs_input_grad[2]:
             # Bias gradient is the sum on all dimensions but the last one
             dim = tuple(range(gO.ndim - 1))
-            bias_gO = gO.sum(dim)
+            # With a 1-D input there is no dimension to reduce (an empty tuple would sum over all dimensions)
+            bias_gO = gO.sum(dim) if len(dim) > 0 else gO
         return input_gO, other_gO, bias_gO
 
 
